@@ -45,9 +45,9 @@ func runExtras(eng *Engine, id, tier string, seed int64, work string) []extraRes
 	case "C14":
 		res = append(res, runBoundedCurves(eng, work, id, []string{"decode16.below-identity-margin"}))
 	case "C08":
-		res = append(res, runBoundedICC(eng, work, []string{"delivery."}))
+		res = append(res, runBoundedICC(eng, work, tier, seed, []string{"delivery."}))
 	case "C17":
-		res = append(res, runBoundedICC(eng, work, []string{"tagtable.", "description."}))
+		res = append(res, runBoundedICC(eng, work, tier, seed, []string{"tagtable.", "description."}))
 	case "C07", "C09":
 		res = append(res, checkRecovers(eng, id))
 	case "C11":
@@ -164,7 +164,7 @@ func runBoundedCurves(eng *Engine, work, id string, prefixes []string) extraResu
 // runBoundedICC injects /verif/bounded/icc_profiles_test.go.tmpl into meta/icc with -overlay and runs the
 // real ProfileReader over the enumerated profiles x delivery schedules (a bounded stand-in for what the
 // abstract-map model of the tag table cannot express: never counted as proved).
-func runBoundedICC(eng *Engine, work string, prefixes []string) extraResult {
+func runBoundedICC(eng *Engine, work, tier string, seed int64, prefixes []string) extraResult {
 	r := extraResult{Obligations: 1}
 	tmpl, err := os.ReadFile(filepath.Join(verifDir, "bounded", "icc_profiles_test.go.tmpl"))
 	if err != nil {
@@ -183,7 +183,7 @@ func runBoundedICC(eng *Engine, work string, prefixes []string) extraResult {
 	outf := filepath.Join(work, "bounded_icc.json")
 	cmd := exec.Command("go", "test", "-overlay", ovf, "-vet=off", "-count=1", "-timeout", "600s", "-run", "TestVcgoBoundedICC", "./meta/icc")
 	cmd.Dir = eng.repoDir
-	cmd.Env = append(goEnv(), "VCGO_BOUNDED_OUT="+outf)
+	cmd.Env = append(goEnv(), "VCGO_BOUNDED_OUT="+outf, "VCGO_TIER="+tier, fmt.Sprintf("VCGO_SEED=%d", seed))
 	b, _ := cmd.CombinedOutput()
 	var res struct {
 		Evaluations int64  `json:"evaluations"`
